@@ -365,7 +365,7 @@ func Perm(n int, f func(p []int) bool) {
 	}
 }
 
-// KnownFinding is one line of /verif/known_findings.jsonl.
+// KnownFinding is one line of /verif/known_findings.txt.
 type KnownFinding struct {
 	Kind     string `json:"kind"` // "finding" or "fixed"
 	Property string `json:"property"`
@@ -375,6 +375,9 @@ type KnownFinding struct {
 }
 
 func LoadKnown(path string) []KnownFinding {
+	// line formats:
+	//   finding: property=<id> id=<violation class> <what fails>
+	//   fixed: property=<id> <commit> <what failed>
 	var out []KnownFinding
 	b, err := os.ReadFile(path)
 	if err != nil {
@@ -385,10 +388,27 @@ func LoadKnown(path string) []KnownFinding {
 		if l == "" || strings.HasPrefix(l, "#") {
 			continue
 		}
-		var k KnownFinding
-		if json.Unmarshal([]byte(l), &k) == nil {
-			out = append(out, k)
+		f := strings.Fields(l)
+		if len(f) < 3 || !strings.HasPrefix(f[1], "property=") {
+			continue
 		}
+		k := KnownFinding{Property: strings.TrimPrefix(f[1], "property=")}
+		switch f[0] {
+		case "finding:":
+			k.Kind = "finding"
+			if !strings.HasPrefix(f[2], "id=") {
+				continue
+			}
+			k.ID = strings.TrimPrefix(f[2], "id=")
+			k.What = strings.Join(f[3:], " ")
+		case "fixed:":
+			k.Kind = "fixed"
+			k.Commit = f[2]
+			k.What = strings.Join(f[3:], " ")
+		default:
+			continue
+		}
+		out = append(out, k)
 	}
 	return out
 }
